@@ -444,6 +444,52 @@ async def _scoped_handler_scenario(order: str, eager_return: bool) -> list[Any]:
     return handled
 
 
+async def _stray_cancel_scenario() -> list[Any]:
+    """Low-level AsyncDatagramServer; the handler takes datagram 1 and awaits a future; datagrams 2 and 3 of the same client arrive and are
+    queued; somebody else cancels the *future* (not the task, and the server is not shutting down), so the handler ends with a CancelledError
+    nobody asked of it; then datagram 4 arrives.  Queued datagrams are handled, by the running generator or by a fresh one: all four."""
+    from easynetwork.lowlevel.api_async.servers import datagram as dg
+    from easynetwork.protocol import DatagramProtocol
+    from easynetwork.serializers.json import JSONSerializer
+
+    backend = harness.HarnessBackend()
+    loop = asyncio.get_running_loop()
+    handled: list[Any] = []
+    cur: dict[str, Any] = {}
+
+    async def handler(ctx: Any) -> Any:
+        req = yield
+        handled.append(req)
+        if req == 1:
+            cur["fut"] = loop.create_future()
+            await cur["fut"]
+
+    listener = memtransport.MemDatagramListener(backend)
+    server = dg.AsyncDatagramServer(listener, DatagramProtocol(JSONSerializer()))
+    task = loop.create_task(server.serve(handler))
+    try:
+        await harness.settle()
+        addr = ("10.0.0.1", 1001)
+        listener.push(b"1", addr)
+        await harness.settle()
+        listener.push(b"2", addr)
+        listener.push(b"3", addr)
+        await harness.settle()
+        if "fut" in cur:
+            cur["fut"].cancel()
+        await asyncio.sleep(1.0)
+        await harness.settle()
+        listener.push(b"4", addr)
+        await asyncio.sleep(1.0)
+        await harness.settle()
+        if task.done():
+            handled.append(f"serve() ended: {task.exception()!r}")
+    finally:
+        task.cancel()
+        await asyncio.gather(task, return_exceptions=True)
+    return handled
+
+
 async def _serve_twice_scenario() -> list[str]:
     """The UDP listener of the asyncio backend on a real socket: datagrams that arrive before serve() is awaited are handed over when it
     starts - once; a second serve() on the same listener (the server was stopped and serves again) does not see them again."""
@@ -521,6 +567,17 @@ def run(chk: Check) -> None:
                     f"after datagram 1: [{order}] (push = datagram 2 arrives, cancel = the scope expires, hop = next loop iteration), then datagram 3: handled {handled}",
                     {"kind": "scoped_handler", "order": order, "eager_return": eager_return},
                 )
+    handled = vloop.run(_stray_cancel_scenario)
+    chk.traces += 1
+    chk.distinct.add(("stray_cancel",))
+    if handled != [1, 2, 3, 4]:
+        lost_only_the_queue = handled == [1, 4]
+        chk.violation(
+            {"kind": "handler_api", "what": "stray_cancel_drops_queue" if lost_only_the_queue else "stray_cancel"},
+            "AsyncDatagramServer, a handler that ends with a CancelledError nobody asked of its task (it awaited a future a third party cancelled; no shutdown) "
+            f"while datagrams 2 and 3 of its client are queued, then datagram 4: handled {handled}, expected [1, 2, 3, 4]",
+            {"kind": "stray_cancel"},
+        )
     for timeouts in (False, True):
         got, want = vloop.run(lambda: _recovering_handler_scenario(timeouts))
         chk.traces += 1
